@@ -97,4 +97,20 @@ def encodeDoc (f : OdsFeatures) (d : OdsDoc) : Xml :=
       [.node "office:spreadsheet" [] none
         (d.zipIdx.map (fun (rows, i) => encodeSheet f ("Sheet" ++ toString (i + 1)) rows)) none] none] none
 
+/-- the rows of a sheet put into the row containers ODF knows: the first row as header rows, the next two as an outline group
+(the second of them one level deeper), the rest as plain `table:table-rows` -/
+def groupRows : List Xml → List Xml
+  | a :: b :: c :: rest =>
+    [.node "table:table-header-rows" [] none [a] none,
+     .node "table:table-row-group" [] none [b, .node "table:table-row-group" [] none [c] none] none,
+     .node "table:table-rows" [] none rest none]
+  | rows => rows
+
+def mapChildren (g : List Xml → List Xml) : Xml → Xml
+  | .node t a x c tl => .node t a x (g c) tl
+
+/-- every sheet of an encoded document with its rows put into containers -/
+def regroupDoc (x : Xml) : Xml :=
+  mapChildren (List.map (mapChildren (List.map (mapChildren (List.map (mapChildren groupRows)))))) x
+
 end Cutplace.Spec
